@@ -26,6 +26,7 @@ func init() {
 		Rule: "1-4 blocking operations (request, observe registration, observation cancel, ping, confirmable one-way write) on one real connection (UDP, DTLS shim, TCP, TLS shim; limiter 0/1) against a peer that is silent, sends garbage, acknowledges without answering, stalls the stream (bounded send buffer, never reads) or stalls the handshake; the interruption (context cancel, deadline, local Close from 1-3 goroutines, peer FIN / reset) lands wherever the tape puts it; " +
 			"non-trivial = an operation was still blocked when the interruption came; distinct = distinct event-log hash",
 		Scenarios: []Scenario{{Name: "S-LIVE/client", Weight: 5, Run: c09Run},
+			{Name: "S-LIVE/discovery", Weight: 1, Run: c09DiscoveryRun},
 			// Stop / Serve of the servers while peers stall handshakes, connect and stay silent, or are mid-exchange:
 			// the server workloads of C10, reporting the rules that concern Stop
 			{Name: "S-LIVE/server-stop-tcp", Weight: 1, Run: func(e *Env) {
